@@ -112,8 +112,10 @@ func (k Keeper) ProducePacket(
 	}
 	latestPricesMap := CreatePricesMap(latestPrices.Prices)
 
-	// check if the interval has passed
-	sendAll := unixNow >= int64(tunnel.Interval)+latestPrices.LastInterval
+	// check if the interval has passed; the seconds elapsed are compared as uint64 because
+	// int64(interval) + LastInterval overflows for intervals near 2^63
+	sendAll := unixNow >= latestPrices.LastInterval &&
+		uint64(unixNow-latestPrices.LastInterval) >= tunnel.Interval
 
 	// generate newPrices; if no newPrices, stop the process.
 	newPrices := GenerateNewPrices(
